@@ -8,6 +8,7 @@ import (
 	"fmt"
 	"os"
 	"path/filepath"
+	"strings"
 	"time"
 
 	"github.com/JunNishimura/Goit/internal/log"
@@ -82,7 +83,7 @@ func commit(rootGoitPath string, index *store.Index, head *store.Head, conf *sto
 		from = nil
 	}
 	// log
-	record := log.NewRecord(log.CommitRecord, from, commit.Hash, conf.GetUserName(), conf.GetEmail(), time.Now(), message)
+	record := log.NewRecord(log.CommitRecord, from, commit.Hash, conf.GetUserName(), conf.GetEmail(), time.Now(), strings.SplitN(message, "\n", 2)[0])
 	if err := gLogger.WriteHEAD(record); err != nil {
 		return fmt.Errorf("log error: %w", err)
 	}
